@@ -252,15 +252,21 @@ var (
 
 func getFixture() (*fixture, error) {
 	fxOnce.Do(func() {
-		// under "go test -fuzz" the working directory is the source directory of this package: keep the
-		// proxy's scratch directory (created relative to the cwd, made absolute at once) out of it
-		if d := os.Getenv("VERIF_OUT"); d != "" && os.Getenv("VERIF_FUZZ") != "" {
-			if old, err := os.Getwd(); err == nil && os.Chdir(d) == nil {
+		// under "go test -fuzz" (and "go test" without the driver) the working directory is the source directory of
+		// this package: keep the proxy's scratch directory (created relative to the cwd, made absolute at once) out of it
+		if _, statErr := os.Stat("c38_test.go"); statErr == nil || os.Getenv("VERIF_FUZZ") != "" {
+			d := os.Getenv("VERIF_OUT")
+			if d == "" {
+				d, _ = os.MkdirTemp("", "c38-scratch")
+			}
+			if old, err := os.Getwd(); err == nil && d != "" && os.Chdir(d) == nil {
 				defer os.Chdir(old)
 			}
 			// the fuzz engine discards the stderr of its workers: keep the Go runtime's crash report of a dying worker
-			if fh, err := os.OpenFile(filepath.Join(d, fmt.Sprintf("fuzz_worker_%d.stderr", os.Getpid())), os.O_CREATE|os.O_WRONLY|os.O_APPEND, 0o644); err == nil {
-				syscall.Dup2(int(fh.Fd()), 2)
+			if os.Getenv("VERIF_FUZZ") != "" && d != "" {
+				if fh, err := os.OpenFile(filepath.Join(d, fmt.Sprintf("fuzz_worker_%d.stderr", os.Getpid())), os.O_CREATE|os.O_WRONLY|os.O_APPEND, 0o644); err == nil {
+					syscall.Dup2(int(fh.Fd()), 2)
+				}
 			}
 		}
 		p, err := proxyfix.Shared()
@@ -399,10 +405,46 @@ func writeLastInput(sub string, c c38Case) {
 // one fuzzed connection
 // ---------------------------------------------------------------------------
 
-const (
-	closeBudget   = 20 * time.Second
-	quiesceBudget = 30 * time.Second
+// limits are the time budgets of one case. The native fuzz engine kills a worker whose single execution takes
+// more than 10 s ("deadlocked!"), so under FuzzC38 every step is short, nothing is retried, and whatever would
+// need more time to be decided (a connection that is not closed yet, an answer that does not arrive, a transport
+// error) makes the execution inconclusive and is appended to $VERIF_OUT/fuzz_suspects.jsonl for a replay with the
+// full budgets (./check C38 --replay after wrapping the case); process death, wrong answers and non-transport
+// errors are still reported by the fuzz target.
+type limits struct {
+	fuzz     bool
+	dial     time.Duration   // client-side timeout of a dial + handshake
+	io       time.Duration   // client-side read/write timeout of the healthy sessions
+	close    time.Duration   // budget for the proxy to close the fuzzed connection
+	attempts int             // a miss must reproduce this often
+	quiesce  time.Duration   // budget for pool slots and session goroutines to return
+	retries  []time.Duration // pauses before the attempts of a healthy statement / dial
+	overall  time.Duration   // 0: none; else no new step is started after this much time
+}
+
+var (
+	fullLimits = limits{dial: 60 * time.Second, io: 60 * time.Second, close: 20 * time.Second, attempts: 3, quiesce: 30 * time.Second,
+		retries: []time.Duration{0, 300 * time.Millisecond, time.Second, 3 * time.Second}}
+	fuzzLimits = limits{fuzz: true, dial: 2 * time.Second, io: 2 * time.Second, close: 2 * time.Second, attempts: 1, quiesce: 1500 * time.Millisecond,
+		retries: []time.Duration{0}, overall: 5 * time.Second}
+	lim = fullLimits
 )
+
+func noteSuspect(sub, why string, c c38Case) {
+	dir := os.Getenv("VERIF_OUT")
+	if dir == "" {
+		return
+	}
+	cj, err := json.Marshal(c)
+	if err != nil {
+		return
+	}
+	b, _ := json.Marshal(map[string]interface{}{"property": "C38", "sub": sub, "expect": "pass", "detail": "fuzz mode, inconclusive: " + why, "case": json.RawMessage(cj)})
+	if fh, err := os.OpenFile(filepath.Join(dir, "fuzz_suspects.jsonl"), os.O_CREATE|os.O_WRONLY|os.O_APPEND, 0o644); err == nil {
+		fh.Write(append(b, '\n'))
+		fh.Close()
+	}
+}
 
 // transportRe: error texts that speak of the proxy's path to its backend, not of the statement
 var transportRe = regexp.MustCompile(`(?i)time ?out|timed out|deadline|connection|broken pipe|\bEOF\b|reset by peer|create resource|bad conn|invalid conn|i/o|\bpool\b|no alive|backendconn|get conn|unavailable|refused`)
@@ -419,7 +461,7 @@ func (f *fixture) runFuzzConn(c c38Case, budget time.Duration) (res connOutcome)
 	var nc net.Conn
 	var wire []byte
 	if c.Handshake != nil {
-		cli, err := rawclient.Dial(f.p.Addr, rawclient.Options{SkipHandshake: true, Timeout: 15 * time.Second})
+		cli, err := rawclient.Dial(f.p.Addr, rawclient.Options{SkipHandshake: true, Timeout: lim.dial})
 		if err != nil {
 			res.fixture = "dial: " + err.Error()
 			return
@@ -436,7 +478,7 @@ func (f *fixture) runFuzzConn(c c38Case, budget time.Duration) (res connOutcome)
 			wire = append(wire, frame(h.Switch, 3, frameMut{})...)
 		}
 	} else {
-		cli, err := rawclient.Dial(f.p.Addr, rawclient.Options{User: f.fuzzUser, Password: password, DB: "db", Timeout: 15 * time.Second, Caps: rawclient.ClientMultiStatements})
+		cli, err := rawclient.Dial(f.p.Addr, rawclient.Options{User: f.fuzzUser, Password: password, DB: "db", Timeout: lim.dial, Caps: rawclient.ClientMultiStatements})
 		if err != nil {
 			res.fixture = "well-formed handshake refused: " + err.Error()
 			return
@@ -524,6 +566,23 @@ func checkC38Sub(sub string, c c38Case) (o pbt.Outcome) {
 		return
 	}
 	hid := atomic.AddInt64(&hSeq, 1)
+	started := time.Now()
+	// soften: under the fuzz engine's 10 s limit a time-dependent verdict cannot be confirmed: inconclusive, noted
+	soften := func(why string) bool {
+		if !lim.fuzz {
+			return false
+		}
+		noteSuspect(sub, why, c)
+		o = pbt.Outcome{Skip: "fuzz mode, inconclusive: time-dependent verdict"}
+		return true
+	}
+	late := func() bool {
+		if lim.overall > 0 && time.Since(started) > lim.overall {
+			o = pbt.Outcome{Skip: "fuzz mode, inconclusive: out of time"}
+			return true
+		}
+		return false
+	}
 
 	// labels / non-trivial rule
 	mutated := false
@@ -588,9 +647,9 @@ func checkC38Sub(sub string, c c38Case) (o pbt.Outcome) {
 	dialOK := func() (*rawclient.Conn, error) {
 		var cli *rawclient.Conn
 		var err error
-		for _, pause := range []time.Duration{0, 300 * time.Millisecond, time.Second, 3 * time.Second} {
+		for _, pause := range lim.retries {
 			time.Sleep(pause)
-			cli, err = rawclient.Dial(f.p.Addr, rawclient.Options{User: f.okUser, Password: password, DB: "db", Timeout: 60 * time.Second})
+			cli, err = rawclient.Dial(f.p.Addr, rawclient.Options{User: f.okUser, Password: password, DB: "db", Timeout: lim.dial})
 			if err == nil {
 				return cli, nil
 			}
@@ -599,33 +658,39 @@ func checkC38Sub(sub string, c c38Case) (o pbt.Outcome) {
 	}
 	healthy, err := dialOK()
 	if err != nil {
-		o.Violation = fmt.Sprintf("a well-formed session cannot be opened any more, 4 attempts (damage from an earlier input of this run?): %v", err)
+		if soften("healthy dial: " + err.Error()) {
+			return
+		}
+		o.Violation = fmt.Sprintf("a well-formed session cannot be opened any more, %d attempts (damage from an earlier input of this run?): %v", len(lim.retries), err)
 		return
 	}
 	defer healthy.Close()
 	st, perr, err := healthy.Prepare("select name from t_ok where name = ?")
 	if err != nil || perr != nil {
+		if err != nil && soften("healthy prepare: "+err.Error()) {
+			return
+		}
 		o.Violation = fmt.Sprintf("healthy session: prepare failed before the input: %v %v", err, perr)
 		return
 	}
 	tagSeq := 0
 	// ask runs one tagged statement (run gets the tag) and checks that exactly the tagged row comes back
-	ask := func(what string, run func(tag string) (*rawclient.Result, error)) string {
+	ask := func(what string, run func(tag string) (*rawclient.Result, error)) (msg string, soft bool) {
 		var last string
-		for _, pause := range []time.Duration{0, 300 * time.Millisecond, time.Second, 3 * time.Second} {
+		for _, pause := range lim.retries {
 			time.Sleep(pause)
 			tagSeq++
 			want := fmt.Sprintf("c38h%dt%d", hid, tagSeq)
 			r, err := run(want)
 			if err != nil {
-				return fmt.Sprintf("%s: %v", what, err) // the client's own connection failed or timed out (60 s)
+				return fmt.Sprintf("%s: %v", what, err), true // the client's own connection failed or timed out
 			}
 			if r.Err != nil {
 				last = fmt.Sprintf("%s: %v", what, r.Err)
 				if transportRe.MatchString(r.Err.Message) {
 					continue
 				}
-				return last
+				return last, false
 			}
 			var got string
 			switch {
@@ -639,19 +704,25 @@ func checkC38Sub(sub string, c c38Case) (o pbt.Outcome) {
 				}
 			}
 			if got != want {
-				return fmt.Sprintf("%s: answer %q (rows %d), want %q", what, got, len(r.Rows)+len(r.RawRows), want)
+				return fmt.Sprintf("%s: answer %q (rows %d), want %q", what, got, len(r.Rows)+len(r.RawRows), want), false
 			}
-			return ""
+			return "", false
 		}
-		return last + " (4 attempts)"
+		return last + fmt.Sprintf(" (%d attempts)", len(lim.retries)), true
 	}
 	textQuery := func(cli *rawclient.Conn) func(string) (*rawclient.Result, error) {
 		return func(tag string) (*rawclient.Result, error) {
 			return cli.Exec("select name from t_ok where name = '" + tag + "'")
 		}
 	}
-	if msg := ask("healthy session, query before the input", textQuery(healthy)); msg != "" {
+	if msg, soft := ask("healthy session, query before the input", textQuery(healthy)); msg != "" {
+		if soft && soften(msg) {
+			return
+		}
 		o.Violation = msg + " (damage from an earlier input of this run?)"
+		return
+	}
+	if late() {
 		return
 	}
 
@@ -668,11 +739,11 @@ func checkC38Sub(sub string, c c38Case) (o pbt.Outcome) {
 	writeLastInput(sub, c)
 
 	// the input; a connection that is not closed within the budget must reproduce three times
-	const attempts = 3
-	res := f.runFuzzConn(c, closeBudget)
+	attempts := lim.attempts
+	res := f.runFuzzConn(c, lim.close)
 	for i := 0; res.fixture != "" && i < 2; i++ {
 		time.Sleep(time.Second)
-		res = f.runFuzzConn(c, closeBudget)
+		res = f.runFuzzConn(c, lim.close)
 	}
 	if res.fixture != "" {
 		// the well-formed part of the fuzz connection could not be set up (dial or valid handshake timed out):
@@ -683,12 +754,15 @@ func checkC38Sub(sub string, c c38Case) (o pbt.Outcome) {
 	if !res.closed {
 		hangs := 1
 		for i := 1; i < attempts; i++ {
-			if r2 := f.runFuzzConn(c, closeBudget); r2.fixture == "" && !r2.closed {
+			if r2 := f.runFuzzConn(c, lim.close); r2.fixture == "" && !r2.closed {
 				hangs++
 			}
 		}
 		if hangs == attempts {
-			o.Violation = fmt.Sprintf("the proxy did not close the connection within %v after the client closed its side (%d of %d attempts); received %d bytes", closeBudget, hangs, attempts, len(res.received))
+			if soften(fmt.Sprintf("fuzzed connection not closed within %v", lim.close)) {
+				return
+			}
+			o.Violation = fmt.Sprintf("the proxy did not close the connection within %v after the client closed its side (%d of %d attempts); received %d bytes", lim.close, hangs, attempts, len(res.received))
 			return
 		}
 		o = pbt.Outcome{Skip: "connection not closed within the budget, not reproducible"}
@@ -701,31 +775,55 @@ func checkC38Sub(sub string, c c38Case) (o pbt.Outcome) {
 	}
 
 	// the healthy session still answers correctly
-	if msg := ask("healthy session opened before the input, text query after it", textQuery(healthy)); msg != "" {
+	if late() {
+		return
+	}
+	if msg, soft := ask("healthy session opened before the input, text query after it", textQuery(healthy)); msg != "" {
+		if soft && soften(msg) {
+			return
+		}
 		o.Violation = msg
 		return
 	}
-	if msg := ask("healthy session opened before the input, prepared statement executed after it", func(tag string) (*rawclient.Result, error) {
+	if late() {
+		return
+	}
+	if msg, soft := ask("healthy session opened before the input, prepared statement executed after it", func(tag string) (*rawclient.Result, error) {
 		return healthy.Execute(st, []rawclient.Param{{Type: 253, Value: rawclient.LenEncBytes([]byte(tag))}})
 	}); msg != "" {
+		if soft && soften(msg) {
+			return
+		}
 		o.Violation = msg
+		return
+	}
+	if late() {
 		return
 	}
 	// a new session can be opened
 	fresh, err := dialOK()
 	if err != nil {
-		o.Violation = fmt.Sprintf("no new session can be opened after the input (4 attempts): %v", err)
+		if soften("fresh dial: " + err.Error()) {
+			return
+		}
+		o.Violation = fmt.Sprintf("no new session can be opened after the input (%d attempts): %v", len(lim.retries), err)
 		return
 	}
-	msg := ask("new session opened after the input", textQuery(fresh))
+	msg, soft := ask("new session opened after the input", textQuery(fresh))
 	fresh.Close()
 	if msg != "" {
+		if soft && soften(msg) {
+			return
+		}
 		o.Violation = msg
+		return
+	}
+	if late() {
 		return
 	}
 
 	// quiescence: pool slots and goroutines back to the baseline
-	deadline := time.Now().Add(quiesceBudget)
+	deadline := time.Now().Add(lim.quiesce)
 	for {
 		inUse := f.poolInUse()
 		g, sig := proxyGoroutines()
@@ -733,10 +831,13 @@ func checkC38Sub(sub string, c c38Case) (o pbt.Outcome) {
 			break
 		}
 		if time.Now().After(deadline) {
+			if soften(fmt.Sprintf("not quiescent after %v: goroutines %d->%d, pool in use %d->%d", lim.quiesce, g0, g, inUse0, inUse)) {
+				return
+			}
 			if g > g0 {
-				o.Violation = fmt.Sprintf("goroutines of client sessions (Server.onConn and workers started by session code) did not return to the baseline: %d before the input, %d more than %v after it (%s)", g0, g, quiesceBudget, diffSigs(sig0, sig))
+				o.Violation = fmt.Sprintf("goroutines of client sessions (Server.onConn and workers started by session code) did not return to the baseline: %d before the input, %d more than %v after it (%s)", g0, g, lim.quiesce, diffSigs(sig0, sig))
 			} else {
-				o.Violation = fmt.Sprintf("backend connections taken from the pool did not return: %d in use before the input, %d more than %v after it", inUse0, inUse, quiesceBudget)
+				o.Violation = fmt.Sprintf("backend connections taken from the pool did not return: %d in use before the input, %d more than %v after it", inUse0, inUse, lim.quiesce)
 			}
 			return
 		}
@@ -771,6 +872,19 @@ func hasOpenEnded(c c38Case) bool {
 		}
 	}
 	return false
+}
+
+// A fuzz worker starts its proxy and backend before the engine starts timing executions.
+func init() {
+	if os.Getenv("VERIF_FUZZ") == "" {
+		return
+	}
+	for _, a := range os.Args[1:] {
+		if strings.HasPrefix(a, "-test.fuzzworker") {
+			getFixture()
+			return
+		}
+	}
 }
 
 // FuzzC38 is the native coverage-guided variant (thorough tier): the fuzz bytes
@@ -808,6 +922,7 @@ func FuzzC38(f *testing.F) {
 		if len(data) > 4096 {
 			t.Skip()
 		}
+		lim = fuzzLimits
 		s := &byteSrc{b: data}
 		c := genCase(s, s.pick("phase", 2) == 1)
 		o := checkC38(c)
